@@ -2,6 +2,7 @@
 from vlib.defs import Item, Variant, Field, DISABLED, ser, msg, props
 from vlib.run import Corpus
 from vlib import structs as T
+from vlib import strings as S
 from vlib import render as RR
 
 ID = "C04"
@@ -36,6 +37,21 @@ def mkv(name, kind, dis, gen=False):
     return v
 
 
+def crate_configs(tier):
+    return [{"name": "c04"}, {"name": "c04probe", "kind": "genprobe"}]
+
+
+def query_in_config(cfg, kind, args):
+    return (kind == "struct") == (cfg.get("kind") == "genprobe")
+
+
+probe_command = S.struct_probe_command
+
+
+def extra_coverage(corpus, tier):
+    return S.struct_coverage()
+
+
 def build_corpus(tier, rng):
     c = Corpus(ID)
     thorough = tier == "thorough"
@@ -56,6 +72,7 @@ def build_corpus(tier, rng):
         k = c.add_def(it, family=fam, derives=["EnumIter", "EnumCount"])
         n = len(it.variants)
         c.add_q(k, "iter", [], note="collect")
+        c.add_q(k, "struct", ["EnumIter"], note="structure")
         c.add_q(k, "count", [], note="count")
         c.add_q(k, "adapt", ["rev"], note="rev")
         c.add_q(k, "adapt", ["count"], note="itercount")
@@ -71,6 +88,8 @@ def render_def(k, it, meta, cfg):
 
 
 def compare(corpus, k, kind, args, note, iobs, mobs, cfg):
+    if kind == "struct":
+        return S.compare_struct(corpus, k, iobs, mobs)
     it = corpus.defs[k]
     if kind in ("iterops", "adapt"):
         mobs = dict(p.split("=", 1) for p in mobs.split("|"))["debug"]
